@@ -32,7 +32,7 @@ ENTRIES = [
 INTERIOR = re.compile(
     r"(^|[:<& ])(std|core)::(cell::(Cell|RefCell|OnceCell|UnsafeCell|LazyCell)|sync::(Mutex|RwLock|Once|OnceLock|LazyLock|Condvar|Barrier|mpsc|atomic)|thread::(LocalKey|local))")
 AMBIENT = re.compile(
-    r"(^|[:<& ])(std|core)::(env|time::(Instant|SystemTime)|fs|net|process|io::(stdin|Stdin)|thread::(current|spawn|sleep|park|yield_now|Thread|available_parallelism)|os|hash::random|collections::hash::map::RandomState|random)\b")
+    r"(^|[:<& ])(std|core)::(env|time::(Instant|SystemTime)|fs|net|process|io::(stdin|Stdin)|thread::(current|spawn|sleep|park|yield_now|Thread|available_parallelism)|os|hash::random|collections::hash::map::RandomState|random|path::Path::(canonicalize|exists|try_exists|is_file|is_dir|is_symlink|metadata|symlink_metadata|read_dir|read_link))\b")
 HASH_ITER_METHODS = {
     "iter", "iter_mut", "keys", "values", "values_mut", "into_keys", "into_values", "drain",
     "retain", "into_iter", "extract_if", "extend", "next", "fmt", "for_each", "fold",
@@ -374,6 +374,7 @@ def positive_control(chk):
         ("interior", INTERIOR, "std::thread::LocalKey::<T>::with"),
         ("ambient", AMBIENT, "std::time::Instant::now"),
         ("ambient", AMBIENT, "std::env::var"),
+        ("ambient", AMBIENT, "std::path::Path::canonicalize"),
         ("ptr", PTR_IDENTITY, "std::ptr::eq"),
     ]
     for eff, rx, key in must:
